@@ -212,6 +212,40 @@ class Gen:
         ms = self.table(**kw)
         return {"macros": ms, "input": self.invocation(ms)}
 
+    def operand_only(self):
+        """arguments that must NOT be macro-expanded: a parameter used only as operand of # / ## (or an
+        unused variable argument) receives a call with the wrong number of arguments; in domain because a
+        conforming preprocessor never expands it"""
+        r = self.r
+        inner_n = r.choice([1, 2, 2, 3])
+        inner = {"name": "F", "params": ["x", "y", "z"][:inner_n], "body": " ".join(["x", "y", "z"][:inner_n]), "via": "define"}
+        k = r.choice([1, 2, 3])
+        ps = ["a", "b", "c"][:k]
+        p = r.choice(ps)
+        # `_ ## p` glues `_` onto the macro name of the call, which therefore never is a call
+        forms = ["#" + p, "_ ## " + p, "#" + p + " _ ## " + p, "# " + p + " q"]
+        others = [q for q in ps if q != p]
+        body = " ".join([r.choice(forms)] + ([r.choice(others)] if others and r.random() < 0.6 else []) +
+                        ([r.choice(["1", "+", "G"])] if r.random() < 0.4 else []))
+        outer = {"name": "S", "params": list(ps), "body": body, "via": r.choice(["define", "define", "D"])}
+        ms = [inner, outer]
+        if r.random() < 0.4:
+            ms.append({"name": "V", "params": ["x", "..."], "body": r.choice(["x", "", "#x"]), "via": "define"})
+        wrong = r.choice([n for n in range(0, 5) if n != inner_n and not (inner_n == 1 and n == 0)])
+        bad_call = "F(" + ",".join(r.choice(["1", "p", "", "(2)"]) for _ in range(wrong)) + ")"
+        if wrong == 0:
+            bad_call = "F()" if inner_n > 1 else "F(1,2)"
+        args = []
+        for q in ps:
+            if q == p:
+                args.append(r.choice(["", " "]) + bad_call)
+            else:
+                args.append(r.choice(["1", "p", "F", ""]))
+        inp = "S(" + ",".join(args) + ")"
+        if len(ms) == 3 and r.random() < 0.7:
+            inp += " V(1, " + bad_call + ")"
+        return {"macros": ms, "input": inp}
+
     def malformed(self):
         r = self.r
         c = self.case()
@@ -304,6 +338,10 @@ class C03(Check):
             out.append({"macros": ms, "input": g.invocation(ms)})
         for _ in range(n_mal):
             out.append(g.malformed())
+        n_op = 200 if quick else 4000
+        for _ in range(n_op):
+            out.append(g.operand_only())
+        self.hist["operand_only_block"] = n_op
         good = []
         for c in out:
             try:
